@@ -57,7 +57,11 @@ type Tree = Vec<Node>;
 const NAMES: &[&str] = &["a", "b", "ab", ".a", ".b", "-", "[", "*", "a]", "sub"];
 const RARE_NAMES: &[&str] =
     &["?", "\\", "]", "!", "^", "é", ".ab", "aa", "ba", "...", "..a", "a.", "\\a", "\\*", "[a]", "a-b", "b*",
-      "[b-a]", "a[b-a]", "[!a]", "\\?", "a\\", "-a", "]a"];
+      "[b-a]", "a[b-a]", "[!a]", "\\?", "a\\", "-a", "]a",
+      // a backslash followed by something a wildcard can match
+      "\\x", "\\ab", "\\\\x", "a\\b",
+      // names that sort before `name/...` when they extend a sibling's name
+      "a.d", "a+x", "a!", "a b", "a,b", "sub-1", "sub.d"];
 
 fn pick_name(rng: &mut Rng) -> String {
     if rng.chance(1, 5) { rng.pick(RARE_NAMES).to_string() } else { rng.pick(NAMES).to_string() }
@@ -80,7 +84,36 @@ fn gen_children(rng: &mut Rng, tree: &mut Tree, dir: &[String], depth: usize, ma
         } else if r < 85 {
             let searchable = !rng.chance(1, 7);
             tree.push(Node { path: path.clone(), kind: Kind::Dir(searchable) });
+            let first_child = tree.len();
             gen_children(rng, tree, &path, depth + 1, max_kids);
+            if rng.chance(1, 3) {
+                // a sibling directory `name<c>..` (c sorts before `/`) with the same entries:
+                // the order of the results is the order of whole pathnames
+                let ext = format!("{}{}{}", path.last().unwrap(), rng.pick(&[' ', '!', '+', ',', '-', '.']), rng.pick(&["", "d", "x"]));
+                if !used.contains(&ext) {
+                    used.push(ext.clone());
+                    let mut sib = dir.to_vec();
+                    sib.push(ext);
+                    let kids: Vec<String> = tree[first_child..]
+                        .iter()
+                        .filter(|n| n.path.len() == path.len() + 1)
+                        .map(|n| n.path.last().unwrap().clone())
+                        .collect();
+                    tree.push(Node { path: sib.clone(), kind: Kind::Dir(true) });
+                    for k in kids {
+                        let mut q = sib.clone();
+                        q.push(k);
+                        tree.push(Node { path: q, kind: Kind::File });
+                    }
+                    if rng.chance(1, 2) {
+                        let mut q = sib.clone();
+                        q.push("f".to_string());
+                        if !tree.iter().any(|n| n.path == q) {
+                            tree.push(Node { path: q, kind: Kind::File });
+                        }
+                    }
+                }
+            }
         } else {
             // a symbolic link; the target is fixed up afterwards
             tree.push(Node { path, kind: Kind::Link(String::new()) });
@@ -220,7 +253,75 @@ fn fixed_trees() -> Vec<Tree> {
         ]),
         // 7: a dangling link (glob.rs missed */dl before 7d0a5f7)
         t(&[("sub", Dir(true)), ("sub/dl", link("zz")), ("sub/f", File)]),
+        // 8: directories one of whose names is a prefix of the other, the next
+        // character sorting before `/`: results are ordered as whole pathnames
+        t(&[
+            ("a", Dir(true)),
+            ("a/f", File),
+            ("a.d", Dir(true)),
+            ("a.d/f", File),
+            ("a-b", Dir(true)),
+            ("a-b/f", File),
+            ("a+x", Dir(true)),
+            ("a+x/f", File),
+            ("a!", Dir(true)),
+            ("a!/f", File),
+            ("a b", Dir(true)),
+            ("a b/f", File),
+            ("a,b", Dir(true)),
+            ("a,b/f", File),
+            ("ab", Dir(true)),
+            ("ab/f", File),
+            ("a0", Dir(true)),
+            ("a0/f", File),
+            ("x", Dir(true)),
+            ("x/f", File),
+            ("x/g", File),
+            ("x-y", Dir(true)),
+            ("x-y/f", File),
+            ("lib", Dir(true)),
+            ("lib/f", File),
+            ("lib/sub", Dir(true)),
+            ("lib/sub/f", File),
+            ("lib+x", Dir(true)),
+            ("lib+x/f", File),
+            ("lib+x/sub", Dir(true)),
+            ("lib+x/sub/f", File),
+        ]),
+        // 9: names with backslashes
+        t(&[
+            ("\\x", File),
+            ("\\", File),
+            ("\\ab", File),
+            ("\\\\x", File),
+            ("x", File),
+            ("ab", File),
+            ("d", Dir(true)),
+            ("d/\\a", File),
+            ("d/\\b", File),
+            ("d/a", File),
+            ("d/\\\\a", File),
+            ("a\\b", File),
+        ]),
     ]
+}
+
+/// A chain of nested directories with the given name lengths (names made of one
+/// repeated character), a file `f` and a file `.h` in every directory.
+fn long_tree(lens: &[usize]) -> Tree {
+    let mut tree = vec![];
+    let mut path: Vec<String> = vec![];
+    for (i, &n) in lens.iter().enumerate() {
+        let c = (b'p' + (i % 8) as u8) as char;
+        path.push(std::iter::repeat(c).take(n).collect());
+        tree.push(Node { path: path.clone(), kind: Kind::Dir(true) });
+        for leaf in ["f", ".h"] {
+            let mut q = path.clone();
+            q.push(leaf.to_string());
+            tree.push(Node { path: q, kind: Kind::File });
+        }
+    }
+    tree
 }
 
 fn make_inode(kind: &Kind) -> Inode {
@@ -587,6 +688,65 @@ fn gen_backslash_field(rng: &mut Rng, tree: &Tree) -> Vec<AttrChar> {
         }
         for (o, a) in ins.into_iter().enumerate() {
             v.insert(k + o, a);
+        }
+    }
+    v
+}
+
+/// A path of the tree that contains a backslash in some name: the backslash is
+/// written as a literal one (escaped, quoted, or doubled in an unquoted
+/// expansion) and what follows it as a wildcard, which must still match.
+fn gen_bsname_field(rng: &mut Rng, tree: &Tree) -> Vec<AttrChar> {
+    let with_bs: Vec<&Node> = tree.iter().filter(|n| n.path.iter().any(|s| s.contains('\\'))).collect();
+    if with_bs.is_empty() {
+        return gen_targeted_field(rng, tree);
+    }
+    let node = *rng.pick(&with_bs);
+    let mut v: Vec<AttrChar> = vec![];
+    for (i, name) in node.path.iter().enumerate() {
+        if i > 0 {
+            v.extend(soft("/"));
+        }
+        let chars: Vec<char> = name.chars().collect();
+        let Some(k) = chars.iter().position(|&c| c == '\\') else {
+            if rng.chance(1, 3) { v.extend(soft("*")) } else { v.extend(soft(name)) }
+            continue;
+        };
+        for &c in &chars[..k] {
+            v.push(ac(c, Origin::SoftExpansion, rng.chance(1, 2), false));
+        }
+        // the backslash itself, literal
+        match rng.below(4) {
+            0 | 1 => {
+                v.push(ac('\\', Origin::Literal, false, true));
+                v.push(ac('\\', Origin::Literal, true, false));
+            }
+            2 => v.push(ac('\\', Origin::SoftExpansion, true, false)),
+            _ => {
+                // two unquoted backslashes: the pattern then has two backslash characters
+                v.push(ac('\\', Origin::SoftExpansion, false, false));
+                v.push(ac('\\', Origin::SoftExpansion, false, false));
+            }
+        }
+        // what follows, as a wildcard
+        let rest = &chars[k + 1..];
+        match rng.below(5) {
+            0 | 1 => v.extend(soft("*")),
+            2 => {
+                for _ in rest {
+                    v.extend(soft("?"));
+                }
+            }
+            3 if !rest.is_empty() => {
+                v.extend(soft(&format!("[{}z]", rest[0])));
+                for &c in &rest[1..] {
+                    v.push(ac(c, Origin::SoftExpansion, true, false));
+                }
+            }
+            _ => {
+                v.extend(soft("?"));
+                v.extend(soft("*"));
+            }
         }
     }
     v
@@ -1196,6 +1356,82 @@ fn main() {
         cx.api("corpus-api", &fixed[*ti], true, *ng, &r.attrs);
     }
 
+    // an escaped (literal) backslash directly followed by an unquoted wildcard
+    let bs_corpus: &[Vec<Unit>] = &[
+        vec![Unit::Bs('\\'), Unit::Plain('*')],
+        vec![Unit::Bs('\\'), Unit::Plain('?')],
+        vec![Unit::Bs('\\'), Unit::Plain('?'), Unit::Plain('?')],
+        vec![Unit::Bs('\\'), Unit::Plain('['), Unit::Plain('a'), Unit::Plain('x'), Unit::Plain(']'), Unit::Plain('*')],
+        vec![Unit::Plain('d'), Unit::Plain('/'), Unit::Bs('\\'), Unit::Plain('['), Unit::Plain('a'), Unit::Plain('b'), Unit::Plain(']')],
+        vec![Unit::Plain('d'), Unit::Plain('/'), Unit::Bs('\\'), Unit::Plain('*')],
+        vec![Unit::Plain('*'), Unit::Plain('/'), Unit::Bs('\\'), Unit::Plain('?')],
+        vec![Unit::Sq("\\".into()), Unit::Plain('*')],
+        vec![Unit::Sq("\\".into()), Unit::Var("*".into())],
+        vec![Unit::DqVar("\\".into()), Unit::Plain('?')],
+        vec![Unit::Plain('a'), Unit::Bs('\\'), Unit::Plain('?')],
+        vec![Unit::Bs('\\'), Unit::Bs('\\'), Unit::Plain('*')],
+        // in an unquoted expansion the first backslash stays and quotes the second
+        vec![Unit::Var("\\\\*".into())],
+        vec![Unit::Var("\\\\?".into())],
+        vec![Unit::Var("d/\\\\[ab]".into())],
+        vec![Unit::Var("\\".into()), Unit::Bs('\\'), Unit::Plain('*')],
+    ];
+    for units in bs_corpus {
+        for ti in [9usize, 2] {
+            cx.shell("corpus-shell", &fixed[ti], false, units);
+            let r = render(units, false);
+            cx.api("corpus-api", &fixed[ti], true, false, &r.attrs);
+        }
+    }
+    // the order of results across directories
+    for f in ["a*/f", "*/f", "?*/f", "a?*/f", "a*/*", "x*/f", "x*/*", "lib*/f", "lib*/sub/f", "lib*/*/f", "l*/s*/*", "[al]*/f", "a[!z]*/f", "./a*/f", "/a*/f", "a*//f"] {
+        cx.api("corpus-api", &fixed[8], true, false, &soft(f));
+        cx.shell("corpus-shell", &fixed[8], false, &[Unit::Var(f.to_string())]);
+        cx.shell("corpus-shell", &fixed[8], false, &plain_units(f));
+    }
+    // long pathnames: nothing may be omitted when the directory part reaches 1024 bytes
+    {
+        let x = |c: char, n: usize| -> String { std::iter::repeat(c).take(n).collect() };
+        let six = long_tree(&[200, 200, 200, 200, 200, 200]);
+        // (every pattern component names its level: the oracle enumerates the product
+        // of the candidates of all components, so `*` at six levels would be 7^6 tuples)
+        for f in ["p*/q*/r*/s*/t*/u*/f", "p*/q*/r*/s*/t*/u*/*", "p*/q*/r*/s*/t*/u*", "p*/q*/r*/s*/t*/u*/[f]", "p*/q*/r*/s*/t*/u*/.*", "*/*"] {
+            cx.api("long-api", &six, true, false, &soft(f));
+        }
+        let lit5 = format!("{}/{}/{}/{}/{}", x('p', 200), x('q', 200), x('r', 200), x('s', 200), x('t', 200));
+        cx.api("long-api", &six, true, false, &soft(&format!("{}/*/*", lit5)));
+        let lit6 = format!("{}/{}/{}/{}/{}/{}", x('p', 200), x('q', 200), x('r', 200), x('s', 200), x('t', 200), x('u', 200));
+        cx.api("long-api", &six, true, false, &soft(&format!("{}/*", lit6)));
+        cx.api("long-api", &six, true, false, &soft(&format!("{}/?", lit6)));
+        cx.api("long-api", &six, true, false, &soft(&format!("*/{}/f", &lit6[201..])));
+        cx.shell("long-shell", &six, false, &[Unit::Var("p*/q*/r*/s*/t*/u*/f".to_string())]);
+        cx.shell("long-shell", &six, false, &[Unit::Var(format!("{}/*", lit6))]);
+        // directory part (with its final slash) of exactly 1022 .. 1026 bytes:
+        // 256 + 256 + 256 + 201 + m + 1
+        for m in [52usize, 53, 54, 55, 56] {
+            let tr = long_tree(&[255, 255, 255, 200, m]);
+            cx.api("long-api", &tr, true, false, &soft("p*/q*/r*/s*/t*/*"));
+            let lit = format!("{}/{}/{}/{}/{}", x('p', 255), x('q', 255), x('r', 255), x('s', 200), x('t', m));
+            cx.api("long-api", &tr, true, false, &soft(&format!("{}/*", lit)));
+            if m == 54 {
+                cx.api("long-api", &tr, true, false, &soft("p*/q*/r*/s*/t*/f"));
+                cx.api("long-api", &tr, true, false, &soft(&format!("/{}/*", lit)));
+            }
+            cx.shell("long-shell", &tr, false, &[Unit::Var("p*/q*/r*/s*/t*/*".to_string())]);
+        }
+        // a working directory deep in the tree, patterns relative to it
+        cx.cwd = format!("/{}", lit6);
+        cx.api("long-api", &six, true, false, &soft("*"));
+        cx.api("long-api", &six, true, false, &soft("../*/f"));
+        cx.cwd = String::new();
+        // single names of 255 bytes
+        let one = long_tree(&[255]);
+        cx.api("long-api", &one, true, false, &soft("*"));
+        cx.api("long-api", &one, true, false, &soft("p*/*"));
+        cx.api("long-api", &one, true, false, &soft(&format!("{}*", x('p', 254))));
+        cx.api("long-api", &one, true, false, &soft(&format!("{}?/f", x('p', 254))));
+    }
+
     // working directories
     let cwd_corpus: &[(usize, &str, &str)] = &[
         (0, "/sub", "*"),
@@ -1319,8 +1555,9 @@ fn main() {
         for _ in 0..per_tree_api {
             let noglob = trng.chance(1, 12);
             let field = match trng.below(20) {
-                0..=9 => gen_targeted_field(&mut trng, &view),
-                10..=13 => gen_bracket_field(&mut trng, &view),
+                0..=8 => gen_targeted_field(&mut trng, &view),
+                9 | 10 => gen_bsname_field(&mut trng, &view),
+                11..=13 => gen_bracket_field(&mut trng, &view),
                 14 | 15 => gen_backslash_field(&mut trng, &view),
                 _ => gen_attr_field(&mut trng),
             };
@@ -1330,9 +1567,10 @@ fn main() {
             let noglob = trng.chance(1, 10);
             let units = if trng.chance(2, 3) {
                 // a targeted field, rendered through an unquoted variable and quoted pieces
-                let f = match trng.below(6) {
+                let f = match trng.below(7) {
                     0 | 1 => gen_bracket_field(&mut trng, &view),
                     2 => gen_backslash_field(&mut trng, &view),
+                    3 => gen_bsname_field(&mut trng, &view),
                     _ => gen_targeted_field(&mut trng, &view),
                 };
                 let mut units = vec![];
@@ -1357,7 +1595,11 @@ fn main() {
                         if !cur.is_empty() {
                             units.push(Unit::Var(std::mem::take(&mut cur)));
                         }
-                        if c.value == '\'' || c.value == '"' { units.push(Unit::Bs(c.value)) } else { units.push(Unit::Sq(c.value.to_string())) }
+                        if c.value == '\'' || c.value == '"' || (c.value == '\\' && trng.chance(2, 3)) {
+                            units.push(Unit::Bs(c.value))
+                        } else {
+                            units.push(Unit::Sq(c.value.to_string()))
+                        }
                     } else {
                         cur.push(c.value);
                     }
